@@ -1,4 +1,4 @@
-CONSTANTS MaxTx = 2  MaxCalls = 3  MaxAvail = 2  AutoDestroy = FALSE  FixD4 = TRUE  TraceMode = FALSE
+CONSTANTS MaxTx = 2  MaxCalls = 3  MaxAvail = 2  AutoDestroy = FALSE  FixD4 = TRUE  TraceMode = FALSE  Gaps = FALSE
  CbFail = {}
  Known <- KnownSet
 SPECIFICATION Spec
